@@ -69,6 +69,9 @@ def main(tier, seed, prop=PROP, prop_bits=PROP_BITS, run=None, n=None):
         "sca / lexstat / stub: the values returned by the word-distance function are recorded by rebinding "
         "LexStat._distance_method from the harness and replayed as exact rationals (oracle replay); 'stub' substitutes "
         "deterministic grid values (multiples of 1/8) for the distance function",
+        "oracle contract (harness-side): every sca distance used by cluster() equals (1e-9) the distance "
+        "LexStat.align_pairs(method='sca') reports for the pair; call histories: the column observed after each of 2-4 "
+        "cluster() calls on one object is compared with the model at that call's threshold",
         "float vs exact: single and complete linkage only compare distances (floats compared as the rationals they "
         "are); average linkage on non-grid distances (edit-dist, sca, lexstat) is compared with the model only when a "
         "lockstep float/exact run certifies that every decision coincides (else only the structural checkers run)",
